@@ -574,6 +574,33 @@ impl Wallet {
             unspent_slips = &self.unspent_slips;
         }
 
+        // the slips that can be used at this height have to cover the request. otherwise
+        // nothing is taken out of the wallet (the caller refuses to build the transaction)
+        let nolan_usable: u128 = unspent_slips
+            .iter()
+            .filter_map(|key| {
+                let key: &SaitoUTXOSetKey = key;
+                self.slips.get(key)
+            })
+            .filter(|slip| slip.block_id > latest_block_id.saturating_sub(genesis_period - 1))
+            .map(|slip| slip.amount as u128)
+            .sum();
+        if nolan_usable < nolan_requested as u128 {
+            warn!(
+                "Trying to spend more than available. requested : {:?}, available : {:?}",
+                nolan_requested, nolan_usable
+            );
+            let empty_input = Slip {
+                public_key: my_public_key,
+                ..Default::default()
+            };
+            let empty_output = Slip {
+                public_key: my_public_key,
+                ..Default::default()
+            };
+            return (vec![empty_input], vec![empty_output]);
+        }
+
         for key in unspent_slips {
             let slip = self.slips.get_mut(key).expect("slip should be here");
 
